@@ -269,6 +269,18 @@ func min(a, b int) int {
 func par2GoroutineInvariance(r *Run) {
 	t := r.T
 	w := GenWorld(r, GenOpts{MaxFiles: 5, RandomOnly: true, SliceSizes: []int{16, 20, 64, 100, 256, 1024, 4096}})
+	if t.Bool(1, 40, "multi-megabyte-file") {
+		// inputs of several MiB (work may be split differently for them)
+		size := (2 << 20) + t.Draw(2<<20, "mb-size")
+		if size/w.S > 20000 {
+			size = 20000*w.S - 3
+		}
+		data := expandContent(ckRandom, t.Draw64(0, "mb-seed"), size, 64)
+		w.N += (size+w.S-1)/w.S - (len(w.Files[0].Data)+w.S-1)/w.S
+		w.Files[0].Data = data
+		w.Disk.Put(w.Path(0), data)
+		r.Probe("file>=2MiB")
+	}
 	base := w.Disk.Clone()
 	w.G = 1
 	ref := r.Create2(w, w.FilePaths(), nil, SchedSpec{})
